@@ -1,0 +1,507 @@
+//! Verification hooks H2/H3 for the evaluator, only compiled with
+//! `--cfg wilfred_garden_verif`.
+//!
+//! * `astx <hexsrc>`: S-expression dump of the parsed items with the
+//!   `SyntaxId` and `value_is_used` flag of every expression (the
+//!   numbering the machine trace refers to).
+//! * `machine <hexsrc> <interrupts|-> <tick_limit|-> <stack_limit|->`:
+//!   evaluate the program in a fresh `Env` the way `garden run` does,
+//!   with output captured, and report one trace line per evaluator
+//!   tick, the output and the outcome. `interrupts` is a
+//!   comma-separated list of tick numbers at which the session's
+//!   interrupted flag is set (H3); after every `Interrupted` outcome
+//!   evaluation is resumed with `eval` until it finishes.
+
+use std::cell::RefCell;
+use std::fmt::Write as _;
+use std::rc::Rc;
+use std::sync::atomic::{AtomicBool, Ordering};
+use std::sync::{Arc, Mutex};
+use std::time::Instant;
+
+use crate::env::Env;
+use crate::eval::{
+    eval, eval_toplevel_items, BlockState, EvalError, ExpressionState, Session, StdoutStderrMode,
+};
+use crate::parser::ast::{
+    Block, Expression, Expression_, IdGenerator, LetDestination, ToplevelItem,
+};
+use crate::parser::parse_toplevel_items;
+use crate::parser::position::Position;
+use crate::parser::vfs::Vfs;
+use crate::values::{Value, Value_};
+
+fn hex(s: &str) -> String {
+    let mut out = String::with_capacity(s.len() * 2);
+    for b in s.as_bytes() {
+        let _ = write!(out, "{b:02x}");
+    }
+    out
+}
+
+thread_local! {
+    static TRACE: RefCell<Option<Vec<String>>> = const { RefCell::new(None) };
+    static INTERRUPT_AT: RefCell<Vec<usize>> = const { RefCell::new(Vec::new()) };
+}
+
+fn dest_sexp(dest: &LetDestination) -> String {
+    match dest {
+        LetDestination::Symbol(sym) => format!("(sym {})", sym.name.text),
+        LetDestination::Destructure(syms) => {
+            let mut s = "(destr".to_owned();
+            for sym in syms {
+                let _ = write!(s, " {}", sym.name.text);
+            }
+            s.push(')');
+            s
+        }
+    }
+}
+
+fn block_sexp(block: &Block) -> String {
+    let mut s = "(block".to_owned();
+    for e in &block.exprs {
+        s.push(' ');
+        s.push_str(&expr_sexp(e));
+    }
+    s.push(')');
+    s
+}
+
+pub(crate) fn expr_sexp(e: &Expression) -> String {
+    let head = |k: &str| format!("({k} {} {}", e.id.0, if e.value_is_used { 1 } else { 0 });
+    match &e.expr_ {
+        Expression_::IntLiteral(i) => format!("{} {i})", head("int")),
+        Expression_::StringLiteral(s) => format!("{} s:{})", head("str"), hex(s)),
+        Expression_::FloatLiteral(_) => format!("{} Float)", head("unsup")),
+        Expression_::Variable(sym) => format!("{} {})", head("var"), sym.name.text),
+        Expression_::BinaryOperator(lhs, op, rhs) => format!(
+            "{} {:?} {} {})",
+            head("binop"),
+            op.kind,
+            expr_sexp(lhs),
+            expr_sexp(rhs)
+        ),
+        Expression_::Let(dest, hint, expr) => format!(
+            "{} {} {} {})",
+            head("let"),
+            dest_sexp(dest),
+            match hint {
+                Some(h) => format!("(hint s:{})", hex(&h.as_src())),
+                None => "nohint".to_owned(),
+            },
+            expr_sexp(expr)
+        ),
+        Expression_::Assign(sym, expr) => {
+            format!("{} {} {})", head("assign"), sym.name.text, expr_sexp(expr))
+        }
+        Expression_::AssignUpdate(sym, kind, expr) => format!(
+            "{} {:?} {} {})",
+            head("update"),
+            kind,
+            sym.name.text,
+            expr_sexp(expr)
+        ),
+        Expression_::If(cond, then_body, else_body) => format!(
+            "{} {} {} {})",
+            head("if"),
+            expr_sexp(cond),
+            block_sexp(then_body),
+            match else_body {
+                Some(b) => block_sexp(b),
+                None => "noelse".to_owned(),
+            }
+        ),
+        Expression_::While(cond, body) => {
+            format!("{} {} {})", head("while"), expr_sexp(cond), block_sexp(body))
+        }
+        Expression_::ForIn(dest, expr, body) => format!(
+            "{} {} {} {})",
+            head("for"),
+            dest_sexp(dest),
+            expr_sexp(expr),
+            block_sexp(body)
+        ),
+        Expression_::Match(scrutinee, cases) => {
+            let mut s = format!("{} {}", head("match"), expr_sexp(scrutinee));
+            for (pattern, block) in cases {
+                let _ = write!(
+                    s,
+                    " (case {} {} {})",
+                    pattern.variant_sym.name.text,
+                    match &pattern.payload {
+                        Some(d) => dest_sexp(d),
+                        None => "nodest".to_owned(),
+                    },
+                    block_sexp(block)
+                );
+            }
+            s.push(')');
+            s
+        }
+        Expression_::Try(_, _, _) => format!("{} Try)", head("unsup")),
+        Expression_::Return(expr) => format!(
+            "{} {})",
+            head("return"),
+            match expr {
+                Some(e) => expr_sexp(e),
+                None => "none".to_owned(),
+            }
+        ),
+        Expression_::Break => format!("{})", head("break")),
+        Expression_::Continue => format!("{})", head("continue")),
+        Expression_::ListLiteral(items) => {
+            let mut s = head("list");
+            for item in items {
+                s.push(' ');
+                s.push_str(&expr_sexp(&item.expr));
+            }
+            s.push(')');
+            s
+        }
+        Expression_::TupleLiteral(items) => {
+            let mut s = head("tuple");
+            for item in items {
+                s.push(' ');
+                s.push_str(&expr_sexp(item));
+            }
+            s.push(')');
+            s
+        }
+        Expression_::DictLiteral(_) => format!("{} Dict)", head("unsup")),
+        Expression_::StructLiteral(_, _) => format!("{} Struct)", head("unsup")),
+        Expression_::Call(recv, args) => {
+            let mut s = format!("{} {}", head("call"), expr_sexp(recv));
+            for arg in &args.arguments {
+                s.push(' ');
+                s.push_str(&expr_sexp(&arg.expr));
+            }
+            s.push(')');
+            s
+        }
+        Expression_::MethodCall(recv, name, args) => {
+            let mut s = format!("{} {} {}", head("mcall"), expr_sexp(recv), name.name.text);
+            for arg in &args.arguments {
+                s.push(' ');
+                s.push_str(&expr_sexp(&arg.expr));
+            }
+            s.push(')');
+            s
+        }
+        Expression_::DotAccess(_, _) => format!("{} DotAccess)", head("unsup")),
+        Expression_::NamespaceAccess(_, _) => format!("{} NamespaceAccess)", head("unsup")),
+        Expression_::FunLiteral(fun_info) => {
+            let mut s = format!("{} (params", head("lambda"));
+            for p in &fun_info.params.params {
+                let _ = write!(
+                    s,
+                    " (p {} {})",
+                    p.symbol.name.text,
+                    if p.hint.is_some() { "hint" } else { "nohint" }
+                );
+            }
+            let _ = write!(
+                s,
+                ") {} {})",
+                if fun_info.return_hint.is_some() {
+                    "hint"
+                } else {
+                    "nohint"
+                },
+                block_sexp(&fun_info.body)
+            );
+            s
+        }
+        Expression_::Assert(expr) => format!("{} {})", head("assert"), expr_sexp(expr)),
+        Expression_::Parentheses(paren) => format!("{} {})", head("paren"), expr_sexp(&paren.expr)),
+        Expression_::Invalid => format!("{})", head("invalid")),
+    }
+}
+
+fn items_sexp(items: &[ToplevelItem]) -> String {
+    let mut out = String::new();
+    for item in items {
+        match item {
+            ToplevelItem::Fun(sym, fun_info, _) => {
+                let _ = write!(out, "(fun {} (params", sym.name.text);
+                for p in &fun_info.params.params {
+                    let _ = write!(
+                        out,
+                        " (p {} {})",
+                        p.symbol.name.text,
+                        match &p.hint {
+                            Some(h) => format!("(hint s:{})", hex(&h.as_src())),
+                            None => "nohint".to_owned(),
+                        }
+                    );
+                }
+                let _ = write!(
+                    out,
+                    ") {} {}) ",
+                    match &fun_info.return_hint {
+                        Some(h) => format!("(hint s:{})", hex(&h.as_src())),
+                        None => "nohint".to_owned(),
+                    },
+                    block_sexp(&fun_info.body)
+                );
+            }
+            ToplevelItem::Enum(info) => {
+                let _ = write!(out, "(enum {}", info.name_sym.name.text);
+                for v in &info.variants {
+                    let _ = write!(
+                        out,
+                        " (variant {} {})",
+                        v.name_sym.name.text,
+                        if v.payload_hint.is_some() {
+                            "payload"
+                        } else {
+                            "nopayload"
+                        }
+                    );
+                }
+                out.push_str(") ");
+            }
+            ToplevelItem::Test(info) => {
+                let _ = write!(
+                    out,
+                    "(test {} {}) ",
+                    info.name_sym.name.text,
+                    block_sexp(&info.body)
+                );
+            }
+            ToplevelItem::Expr(e) => {
+                let _ = write!(out, "(expr {}) ", expr_sexp(&e.0));
+            }
+            ToplevelItem::Block(b) => {
+                let _ = write!(out, "(blockitem {}) ", block_sexp(b));
+            }
+            ToplevelItem::Method(_, _) => out.push_str("(unsupitem Method) "),
+            ToplevelItem::Struct(_) => out.push_str("(unsupitem Struct) "),
+            ToplevelItem::Import(_) => out.push_str("(unsupitem Import) "),
+        }
+    }
+    out
+}
+
+pub(crate) fn op_astx(src: &str) -> String {
+    let mut id_gen = IdGenerator::default();
+    let (_vfs, vfs_path) = Vfs::singleton(std::path::PathBuf::from("/verif_input.gdn"), src.to_owned());
+    let (items, errors) = parse_toplevel_items(&vfs_path, src, &mut id_gen);
+    format!("(astx {} {})", errors.len(), items_sexp(&items))
+}
+
+/// A short, display-independent rendering of a value for traces.
+fn value_short(v: &Value, depth: usize) -> String {
+    if depth > 40 {
+        return "...".to_owned();
+    }
+    match v.as_ref() {
+        Value_::Int(i) => format!("i{i}"),
+        Value_::Float(_) => "float".to_owned(),
+        Value_::Fun { name_sym, .. } => format!("fn:{}", name_sym.name.text),
+        Value_::Closure(_, _, _) => "clo".to_owned(),
+        Value_::BuiltInFunction(kind, _, _) => format!("bi:{kind:?}"),
+        Value_::String(s) => format!("s{}", hex(s)),
+        Value_::List { items, .. } => {
+            let inner: Vec<String> = items.iter().map(|x| value_short(x, depth + 1)).collect();
+            format!("[{}]", inner.join(","))
+        }
+        Value_::Tuple { items, .. } => {
+            let inner: Vec<String> = items.iter().map(|x| value_short(x, depth + 1)).collect();
+            format!("({})", inner.join(","))
+        }
+        Value_::Dict { .. } => "dict".to_owned(),
+        Value_::EnumVariant {
+            type_name,
+            variant_idx,
+            payload,
+            ..
+        } => match payload {
+            Some(p) => format!(
+                "E:{}.{}<{}>",
+                type_name.text,
+                variant_idx,
+                value_short(p, depth + 1)
+            ),
+            None => format!("E:{}.{}", type_name.text, variant_idx),
+        },
+        Value_::EnumConstructor {
+            type_name,
+            variant_idx,
+            ..
+        } => format!("C:{}.{}", type_name.text, variant_idx),
+        Value_::Struct { type_name, .. } => format!("struct:{}", type_name.text),
+        Value_::Namespace { .. } => "ns".to_owned(),
+    }
+}
+
+fn state_short(state: &ExpressionState) -> &'static str {
+    match state {
+        ExpressionState::NotEvaluated => "N",
+        ExpressionState::PartiallyEvaluated(BlockState::WillRunBlock) => "PW",
+        ExpressionState::PartiallyEvaluated(BlockState::DoneRunBlock) => "PD",
+        ExpressionState::PartiallyEvaluated(BlockState::NotBlock) => "PN",
+        ExpressionState::EvaluatedSubexpressions => "E",
+    }
+}
+
+/// Called by `eval` once per tick, after the entry was popped and the
+/// tick counter incremented, before anything else happens.
+pub(crate) fn trace_tick(
+    env: &Env,
+    session: &Session,
+    state: &ExpressionState,
+    expr: &Rc<Expression>,
+) {
+    INTERRUPT_AT.with(|ia| {
+        if ia.borrow().contains(&env.ticks) {
+            session.interrupted.store(true, Ordering::SeqCst);
+        }
+    });
+
+    TRACE.with(|t| {
+        let mut t = t.borrow_mut();
+        let Some(lines) = t.as_mut() else {
+            return;
+        };
+        let frame = env.current_frame();
+        let mut line = format!(
+            "T {} {} {}#{} |",
+            env.ticks,
+            env.stack.0.len(),
+            state_short(state),
+            expr.id.0
+        );
+        for (st, e) in &frame.exprs_to_eval {
+            let _ = write!(line, " {}#{}", state_short(st), e.id.0);
+        }
+        line.push_str(" |");
+        for v in &frame.evalled_values {
+            let _ = write!(line, " {}", value_short(v, 0));
+        }
+        line.push_str(" |");
+        for block in &frame.bindings.block_bindings {
+            let mut names: Vec<String> = block
+                .values
+                .keys()
+                .map(|k| match env.id_gen.intern_id_to_name.get(k) {
+                    Some(n) => n.text.clone(),
+                    None => format!("?{}", k.0),
+                })
+                .collect();
+            names.sort();
+            let _ = write!(line, " {{{}}}", names.join(","));
+        }
+        lines.push(line);
+    });
+}
+
+fn err_short(e: &EvalError) -> String {
+    let pos = |p: &Position| format!("{}:{}", p.start_offset, p.end_offset);
+    match e {
+        EvalError::Exception(info) => format!(
+            "(exception {} {})",
+            pos(&info.position),
+            hex(&info.message.as_string())
+        ),
+        EvalError::AssertionFailed(p, msg) => {
+            format!("(assertion {} {})", pos(p), hex(&msg.as_string()))
+        }
+        EvalError::Interrupted => "(interrupted)".to_owned(),
+        EvalError::ReachedTickLimit(p) => format!("(ticklimit {})", pos(p)),
+        EvalError::ReachedStackLimit(p) => format!("(stacklimit {})", pos(p)),
+        EvalError::ForbiddenInSandbox(p) => format!("(sandbox {})", pos(p)),
+    }
+}
+
+fn parse_opt_usize(s: &str) -> Option<usize> {
+    if s == "-" {
+        None
+    } else {
+        s.parse().ok()
+    }
+}
+
+pub(crate) fn op_machine(rest: &str, src: &str) -> Result<String, String> {
+    let parts: Vec<&str> = rest.split(' ').collect();
+    let interrupts: Vec<usize> = match parts.get(1) {
+        Some(&"-") | None => vec![],
+        Some(s) => s.split(',').filter_map(|x| x.parse().ok()).collect(),
+    };
+    let tick_limit = parts.get(2).and_then(|s| parse_opt_usize(s));
+    let stack_limit = parts.get(3).and_then(|s| parse_opt_usize(s));
+    let want_trace = parts.get(4).copied() != Some("notrace");
+
+    let path = std::path::PathBuf::from("/verif_input.gdn");
+    let mut id_gen = IdGenerator::default();
+    let mut vfs = Vfs::default();
+    let vfs_path = vfs.insert(Rc::new(path.clone()), src.to_owned());
+    let (items, errors) = parse_toplevel_items(&vfs_path, src, &mut id_gen);
+    if !errors.is_empty() {
+        return Ok("(parse-error)".to_owned());
+    }
+
+    let mut env = Env::new(id_gen, vfs);
+    let ns = env.get_or_create_namespace(&path);
+    env.current_frame_mut().namespace = ns;
+    env.tick_limit = tick_limit;
+    env.stack_limit = stack_limit;
+
+    let stdout_buf = Arc::new(Mutex::new(String::new()));
+    let stderr_buf = Arc::new(Mutex::new(String::new()));
+    let session = Session {
+        interrupted: Arc::new(AtomicBool::new(false)),
+        stdout_stderr_mode: StdoutStderrMode::WriteToNReplBuffers {
+            stdout_buf: Arc::clone(&stdout_buf),
+            stderr_buf: Arc::clone(&stderr_buf),
+        },
+        start_time: Instant::now(),
+        trace_exprs: false,
+        pretty_print_json: false,
+    };
+
+    // Ticks are counted from the start of this evaluation.
+    let base_ticks = env.ticks;
+    INTERRUPT_AT.with(|ia| *ia.borrow_mut() = interrupts.iter().map(|t| t + base_ticks).collect());
+    TRACE.with(|t| *t.borrow_mut() = if want_trace { Some(vec![]) } else { None });
+
+    let mut n_interrupted = 0;
+    let mut outcome = match eval_toplevel_items(&vfs_path, &items, &mut env, &session) {
+        Ok(summary) => match summary.values.last() {
+            Some(v) => format!("(ok {})", value_short(v, 0)),
+            None => "(ok none)".to_owned(),
+        },
+        Err(e) => err_short(&e),
+    };
+    while outcome == "(interrupted)" && n_interrupted < 10_000 {
+        n_interrupted += 1;
+        outcome = match eval(&mut env, &session) {
+            Ok(v) => format!("(ok {})", value_short(&v, 0)),
+            Err(e) => err_short(&e),
+        };
+    }
+
+    INTERRUPT_AT.with(|ia| ia.borrow_mut().clear());
+    let lines = TRACE.with(|t| t.borrow_mut().take()).unwrap_or_default();
+    let frames = env.stack.0.len();
+    let frame = env.current_frame();
+    let end_state = format!(
+        "(end {} {} {} {} {})",
+        env.ticks - base_ticks,
+        frames,
+        frame.exprs_to_eval.len(),
+        frame.evalled_values.len(),
+        frame.bindings.block_bindings.len()
+    );
+    let out = stdout_buf.lock().map(|s| s.clone()).unwrap_or_default();
+    let err = stderr_buf.lock().map(|s| s.clone()).unwrap_or_default();
+    Ok(format!(
+        "(machine {} (interrupted {}) {} (out {}) (errout {}) (trace {}))",
+        outcome,
+        n_interrupted,
+        end_state,
+        hex(&out),
+        hex(&err),
+        hex(&lines.join("\n"))
+    ))
+}
